@@ -12,6 +12,9 @@ def run(tier):
     from contracts.lib_cmp import ARRAY_SORT_CUSTOM
     run_contracts_sel(pr, [FILTER_DATA, ADD_CALCULATED_FIELD], tier, 'C09')
     run_contracts_sel(pr, [ARRAY_SORT_CUSTOM], tier, 'C09')
+    # arrayIndexOf/arrayLastIndexOf match functions: called with the caller's options (so their statements are counted)
+    from contracts.lib_cmp import INDEX_OF_MATCH
+    run_contracts_sel(pr, INDEX_OF_MATCH, tier, 'C09')
     pr.not_proved.append('data.join_data, data.aggregate_data: evaluation sites not under contract (join_data evaluates the join '
                          'expressions per row; the carried-back count was repaired in 0dca9b5 but is not proved here)')
     from .C17 import include_bounded
